@@ -184,6 +184,63 @@ let () = reg "consistent" (fun args ->
     if consistent (nat_i m) eqs then "1" else "0"
   | _ -> "BAD")
 
+(* ---------------- result formats (R8.v, B8.v, Formats.v) ---------------- *)
+let bits_of_string s = List.init (Stdlib.String.length s) (fun k -> s.[k] = '1')
+let string_of_bits l = Stdlib.String.concat "" (List.map (fun b -> if b then "1" else "0") l)
+let hex_of_ints l = Stdlib.String.concat "" (List.map (fun v -> Printf.sprintf "%02x" v) l)
+let ints_of_hex h = List.init (Stdlib.String.length h / 2) (fun k -> int_of_string ("0x" ^ Stdlib.String.sub h (2 * k) 2))
+let rec chunks8 l = match l with
+  | a :: b :: c :: d :: e :: f :: g :: h :: r -> let (cs, t) = chunks8 r in ([a; b; c; d; e; f; g; h] :: cs, t)
+  | _ -> ([], l)
+(* fmtenc FORMAT BITS -> hex of the model's bytes for one record *)
+let () = reg "fmtenc" (fun args ->
+  match args with
+  | fmt :: rest ->
+    let bits = bits_of_string (match rest with b :: _ -> b | [] -> "") in
+    (match fmt with
+     | "r8" -> hex_of_ints (List.map int_of_nat (impl_enc bits))
+     | "r8spec" -> hex_of_ints (List.map int_of_nat (spec_enc bits))
+     | "r8bytes" -> let (cs, t) = chunks8 bits in hex_of_ints (List.map int_of_nat (impl_enc_bytes cs t))
+     | "b8" -> hex_of_ints (List.map int_of_n (b8_write bits []))
+     | "01" -> hex_of_ints (List.map int_of_n (enc01 bits))
+     | "hits" -> hex_of_ints (List.map int_of_n (enc_hits (List.map (fun k -> n_of_int (int_of_nat k)) (true_positions bits O))))
+     | _ -> "BAD-FORMAT")
+  | _ -> "BAD")
+(* fmtdec FORMAT N HEX -> "S bits REST hex" | "BAD" | "EOF" : the model reader on one record *)
+let () = reg "fmtdec" (fun args ->
+  match args with
+  | fmt :: n :: rest ->
+    let n = int_of_string n in
+    let bytes = ints_of_hex (match rest with h :: _ -> h | [] -> "") in
+    let from_hits hits = Stdlib.String.init n (fun k -> if List.mem k hits then '1' else '0') in
+    (match fmt with
+     | "r8" ->
+       (match dec (nat_of_int n) (List.map nat_of_int bytes) O [] with
+        | Done (hits, r) -> "S " ^ from_hits (List.map int_of_nat hits) ^ " REST " ^ hex_of_ints (List.map int_of_nat r)
+        | Bad -> if bytes = [] then "EOF" else "BAD")
+     | "b8" ->
+       if bytes = [] && n > 0 then "EOF" else if List.length bytes < (n + 7) / 8 then "BAD" else
+       let (l, r) = b8_read (nat_of_int n) (List.map n_of_int bytes) in
+       "S " ^ string_of_bits l ^ " REST " ^ hex_of_ints (List.map int_of_n r)
+     | "01" ->
+       if bytes = [] then "EOF" else
+       (match dec01 (nat_of_int n) (List.map n_of_int bytes) with
+        | Some (l, r) -> "S " ^ string_of_bits l ^ " REST " ^ hex_of_ints (List.map int_of_n r)
+        | None -> "BAD")
+     | "hits" ->
+       (match dec_hits (nat_of_int (List.length bytes + 1)) true (List.map n_of_int bytes) [] with
+        | HDone (hits, r) ->
+          let hs = List.map int_of_n hits in
+          if List.exists (fun h -> h >= n) hs then "BAD" else
+          (* the dense reader XORs duplicate indices *)
+          let s = Bytes.make n '0' in
+          List.iter (fun h -> Bytes.set s h (if Bytes.get s h = '1' then '0' else '1')) hs;
+          "S " ^ Bytes.to_string s ^ " REST " ^ hex_of_ints (List.map int_of_n r)
+        | HEof -> "EOF"
+        | HBad -> "BAD")
+     | _ -> "BAD-FORMAT")
+  | _ -> "BAD")
+
 let () =
   (try
      while true do
